@@ -12,6 +12,7 @@ import (
 	"time"
 
 	"github.com/Comcast/rulio/core"
+	"github.com/Comcast/rulio/cron"
 	"github.com/Comcast/rulio/sys"
 
 	"verif/harness/gen"
@@ -48,6 +49,14 @@ func init() {
 
 func newCtx() *core.Context { return core.BenchContext("verif") }
 
+// locCtx is a context that carries its location, as every request that
+// comes through sys.System does (the state hooks rely on it).
+func locCtx(loc *core.Location) *core.Context {
+	ctx := newCtx()
+	ctx.SetLoc(loc)
+	return ctx
+}
+
 func quietControl() *core.Control {
 	c := core.DefaultControl()
 	c.Verbosity = core.NOTHING
@@ -64,6 +73,27 @@ func newWorld(kind string, store core.Storage, o *vlib.Outcome) *world {
 		model: map[string]*mLoc{}, o: o}
 	w.prov = core.NewSimpleLocationProvider(w.locs)
 	return w
+}
+
+// withCronHooks installs the cron state hooks on every state this world
+// builds, as sys.System does for the locations it serves.
+func (w *world) withCronHooks() {
+	w.hooks = func(st core.State) { cron.AddHooks(newCtx(), nullCron{}, st) }
+	w.o.Label("state-hooks")
+}
+
+// hookNotFound: with the cron hooks installed, removing an id that is not
+// there reports not-found (the remove hook looks the id up first) and
+// removes nothing.
+func (w *world) hookNotFound(err error, ml *mLoc, id string) bool {
+	if w.hooks == nil && w.engine == nil {
+		return false
+	}
+	if _, nf := err.(*core.NotFoundError); !nf {
+		return false
+	}
+	_, have := ml.Items[id]
+	return !have || ml.Unspec[id]
 }
 
 func (w *world) newState(name string) (core.State, error) {
@@ -257,6 +287,12 @@ func (w *world) remFact(name, id string) opResult {
 	loc, ml := w.locs[name], w.model[name]
 	_, err := loc.RemFact(newCtx(), id)
 	if err != nil {
+		if w.hookNotFound(err, ml, id) {
+			// the id is not there, and nothing was removed
+			delete(ml.Items, id)
+			delete(ml.Unspec, id)
+			return opResult{id, nil}
+		}
 		return opResult{id, err}
 	}
 	ml.rem(id)
@@ -267,6 +303,13 @@ func (w *world) remRule(name, id string) opResult {
 	loc, ml := w.locs[name], w.model[name]
 	_, err := loc.RemRule(newCtx(), id)
 	if err != nil {
+		if w.hookNotFound(err, ml, id) {
+			// the id is not there; nothing was removed, the disabled
+			// flag (if any) stays
+			delete(ml.Items, id)
+			delete(ml.Unspec, id)
+			return opResult{id, nil}
+		}
 		return opResult{id, err}
 	}
 	ml.rem(id)
@@ -280,6 +323,10 @@ func (w *world) enableRule(name, id string, enable bool) opResult {
 	loc, ml := w.locs[name], w.model[name]
 	err := loc.EnableRule(newCtx(), id, enable)
 	if err != nil {
+		if enable && w.hookNotFound(err, ml, propId(id, "disabled")) && !ml.Unspec[propId(id, "disabled")] {
+			// enabling a rule that carries no flag: nothing to remove
+			return opResult{id, nil}
+		}
 		return opResult{id, err}
 	}
 	pid := propId(id, "disabled")
@@ -882,7 +929,7 @@ func mapKeys(m map[string]string) []string {
 
 // setProp performs Location.SetProp on both sides.
 func (w *world) setProp(name, id, prop string, val interface{}) error {
-	err := w.locs[name].SetProp(newCtx(), id, prop, gen.DeepCopy(val))
+	err := w.locs[name].SetProp(locCtx(w.locs[name]), id, prop, gen.DeepCopy(val))
 	if err == nil {
 		p := prop
 		if !strings.HasPrefix(p, "!") {
